@@ -198,6 +198,35 @@ def large_case(rng):
                 minchg=rng.random() < 0.5, stream=rand_stream(rng, alg, n), ctx=CTXS[ci])
 
 
+def improve_case(rng):
+    """aimed at the IMPROVEMENT phase of random-improve: a request of two or more asset classes that is small
+    against the pool (so phase 1 leaves UTxOs over and phase 2 has room below the upper bound 3 x request), and an index
+    stream of small values, so that the same leftover UTxO is reachable in several per-asset improvement passes"""
+    n = rng.randint(2, 6)
+    na = rng.choice([1, 2, 2, 3])
+    pool = []
+    for _ in range(n):
+        coin = rng.choice([800000, ADA, 1200000, 2 * ADA, 3 * ADA])
+        toks = [(ai, rng.choice([1, 2, 5, 8, 10])) for ai in range(na) if rng.random() < 0.8]
+        pool.append(mk_val(coin, toks))
+    coin, tok = totals(pool)
+    rcoin = rng.choice([ADA, 2 * ADA, max(coin // 4, 1), max(coin // 3, 1)])
+    rt = []
+    for ai in range(na):
+        t = tok.get(ASSETS[ai], 0)
+        if t:
+            rt.append((ai, rng.choice([1, max(t // 4, 1), max(t // 3, 1), max(t // 2, 1), min(10, t)])))
+    alg = rng.choice(['ri', 'ri', 'rb'])
+    ln = 3 * n + 8
+    if alg == 'ri':
+        stream = [rng.choice([0, 0, 1, 1, 2]) for _ in range(ln)]
+    else:
+        stream = rand_stream(rng, 'rb', n)
+    ci = rng.choice([1, 2, 2])
+    return dict(alg=alg, pool=pool, outs=[mk_val(rcoin, rt)] if rng.random() < 0.7 else split_outs(rng, rcoin, rt),
+                lim=rng.choice([None, None, 4, 6]), fee=rng.random() < 0.3, minchg=rng.random() < 0.3, stream=stream, ctx=CTXS[ci])
+
+
 def neg_case(rng):
     """OUTSIDE the domain, aimed at the model's KeyError / InvalidData branches: a UTxO with a negative token quantity
     is drawn by the improvement phase after the first phase covered the token request"""
@@ -241,6 +270,7 @@ def gen_cases(ctx, n_small, n_large, exhaustive):
         cases += exhaustive_small(rng, *exhaustive)
     cases += [small_case(rng) for _ in range(n_small)]
     cases += [large_case(rng) for _ in range(n_large)]
+    cases += [improve_case(rng) for _ in range(max(200, n_large // 3))]
     return cases, ncorpus
 
 
